@@ -217,6 +217,17 @@ class C07(Prop):
                     src, dst = rng.choice(early[-6:]), rng.choice(late_)
                     dst[1], dst[2], dst[3] = src[1], src[2], src[3]
                     c['stream'] += ':repeated-bar-after-the-cut'
+            if c['market']['kind'] == 'csv' and rng.random() < 0.15:
+                # a vendor that publishes opening prices only from some day after the cut: one asset's Open column is blank on
+                # every row up to the cut day (closes are there); in the other world the rows with opens are gone
+                a_ = rng.choice(sorted(c['market']['assets']))
+                upto = c['T'] + rng.choice([0, 0, 2])
+                for r in c['market']['assets'][a_]:
+                    if r[0] <= upto:
+                        r[1] = None
+                if rng.random() < 0.7:
+                    c['mode_future'] = 'remove'
+                c['stream'] += ':no-opens-until-after-the-cut'
             c['market2'] = future_rewrite(rng, c['market'], c['T'], c['mode_future'])
             if c['market']['kind'] == 'csv' and rng.random() < 0.15:
                 # a re-rating on the cut day: one asset's prices jump by 80 % on T; in one world the new level holds, in the
